@@ -89,6 +89,38 @@ def zipped (f : List Nat → α → α → α) (l r : LazyView ν α) : LazyView
 def Similar [DecidableEq α] (l r : LazyView ν α) : Prop :=
   ∃ names, IsOrdering r.shape names ∧ materialise (reordered r names) = materialise l
 
+/-- one in-place transformation, at the level of values -/
+inductive Step (ν α : Type) where
+  | reorder (names : List ν)
+  | transpose (names : List ν)
+  | reshape (shape : List (ν × Nat))
+  | rename (names : List ν)
+  | map (f : α → α)
+  | mapi (f : List Nat → α → α)
+
+/-- The value after one in-place transformation of the tensor value `v` (`none`: the
+    transformation is refused): the value of the corresponding lazy view of `v`. -/
+def stepValue (v : TVal ν α) : Step ν α → Option (TVal ν α)
+  | .reorder names =>
+    if IsOrdering v.shape names then some (materialise (reordered (ofData v.shape v.elems) names))
+    else none
+  | .transpose names =>
+    if IsOrdering v.shape names then some (materialise (transposed (ofData v.shape v.elems) names))
+    else none
+  | .reshape s => if Accepts s v.elems.length then some ⟨s, v.elems⟩ else none
+  | .rename names =>
+    if names.Nodup then some (materialise (renamed (ofData v.shape v.elems) names)) else none
+  | .map f => some ⟨v.shape, v.elems.map f⟩
+  | .mapi f => some (materialise (mappedWithIndex f (ofData v.shape v.elems)))
+
+/-- the value after a history of in-place transformations -/
+def runSteps (v : TVal ν α) : List (Step ν α) → Option (TVal ν α)
+  | [] => some v
+  | st :: rest =>
+    match stepValue v st with
+    | some v' => runSteps v' rest
+    | none => none
+
 /-- the element comparison lifted to two cells: both present and related -/
 def cellRel (rel : α → α → Bool) : Option α → Option α → Bool
   | some x, some y => rel x y
